@@ -176,6 +176,72 @@ def progress(rep, rule, prog):
             rep.ok(rule, key, '%d Ok exits, all behind a consuming call (%d consuming call sites)' % (len(oks), len(consuming)), b.loc())
 
 
+def _ok_exit_blocks(b):
+    """blocks in which the return place receives a value that is not a literal Err / a propagated residual"""
+    oks = []
+    for bi, bb in enumerate(b.bbs):
+        if bb['cleanup']:
+            continue
+        for st in bb['st']:
+            r = st.get('r', {})
+            p = st.get('p', {})
+            if p.get('l') == 0 and not p.get('p'):
+                if r.get('k') == 'agg' and r['kind'].endswith('Result::Err'):
+                    continue
+                if r.get('k') == 'use':
+                    v = b.expr_op(r['o'])
+                    if v[0] == 'try' and v[1][0] == 'agg' and v[1][1].endswith('Result::Err'):
+                        continue
+                oks.append(bi)
+        t = bb['t']
+        if t['k'] == 'call' and t['dest']['l'] == 0 and not t['dest']['p']:
+            f = t['f'].get('c', {}).get('fn', {})
+            if f.get('name') == 'from_residual':
+                continue
+            oks.append(bi)
+    return oks
+
+
+def struct_pairing(rep, rule, prog):
+    """read-based skippers: after read_struct_begin, no Ok exit is reachable without read_struct_end
+    (the compact reader's field-id context is pushed by the former and restored only by the latter, so the
+    fields following a skipped struct would otherwise be decoded with the wrong ids)"""
+    sk = find_skippers(prog)
+    for name in ('sync_compact', 'async_default'):
+        b = sk.get(name)
+        if b is None:
+            rep.anchor_missing(rule, 'skipper ' + name)
+            continue
+        begins = [cs for cs in b.calls() if cs.name == 'read_struct_begin']
+        ends = {cs.bb for cs in b.calls() if cs.name == 'read_struct_end'}
+        key = '%s|%s|struct begin/end' % (rule, name)
+        if not begins:
+            rep.anchor_missing(rule, 'read_struct_begin in ' + name)
+            continue
+        succ, pred, reach = b.cfg
+        oks = set(_ok_exit_blocks(b))
+        bad = None
+        for cs in begins:
+            seen = set()
+            st = list(succ[cs.bb])
+            while st:
+                x = st.pop()
+                if x in seen or x in ends:
+                    continue
+                seen.add(x)
+                # the end call may itself deliver the result (tail position): its block is in `ends`, never here
+                if x in oks:
+                    bad = x
+                    break
+                st.extend(succ[x])
+            if bad is not None:
+                break
+        if bad is not None:
+            rep.bad(rule, key, begins[0].loc(), 'skipper %s can finish a struct with Ok without calling read_struct_end: the reader\'s field-id context stays that of the skipped struct, so the fields that follow it decode with wrong ids' % name)
+        else:
+            rep.ok(rule, key, 'every Ok exit after read_struct_begin passes read_struct_end (%d end sites)' % len(ends), begins[0].loc())
+
+
 # ----------------------------------------------------------------------------- arm structure
 def type_switch(b, prog):
     """the `match field_type`/`match ttype` switch of a skipper: (bb, {variant: target_bb}, otherwise_bb)"""
